@@ -395,6 +395,89 @@ func c20Units(c *Ctx, p *Prog) {
 			}
 		}
 	}
+	// components described by a package-level table {suffix, size}: the size IS the divisor (some division in the
+	// formatter divides by the table's size field), and each suffix must be the parser's unit of that size
+	if n < 7 {
+		region := regionOf(p, sdf, func(f *ssa.Function) bool { return f.Pkg == p.Times })
+		tables := map[*ssa.Global]bool{}
+		dividesBy := map[*ssa.Global]bool{}
+		for g := range region {
+			for _, b := range g.Blocks {
+				for _, in := range b.Instrs {
+					for _, op := range in.Operands(nil) {
+						if gl, ok := (*op).(*ssa.Global); ok && gl.Pkg == p.Times {
+							tables[gl] = true
+						}
+					}
+					if bo, ok := in.(*ssa.BinOp); ok && (bo.Op == token.QUO || bo.Op == token.REM) {
+						// y = table[i].size (through a copied element or directly)
+						var walk func(v ssa.Value, d int) *ssa.Global
+						walk = func(v ssa.Value, d int) *ssa.Global {
+							if d > 6 || v == nil {
+								return nil
+							}
+							switch x := v.(type) {
+							case *ssa.Global:
+								return x
+							case *ssa.UnOp:
+								return walk(x.X, d+1)
+							case *ssa.Field:
+								return walk(x.X, d+1)
+							case *ssa.FieldAddr:
+								return walk(x.X, d+1)
+							case *ssa.Index:
+								return walk(x.X, d+1)
+							case *ssa.IndexAddr:
+								return walk(x.X, d+1)
+							case *ssa.Alloc:
+								for _, ref := range *x.Referrers() {
+									if st, ok := ref.(*ssa.Store); ok && st.Addr == ssa.Value(x) {
+										if gl := walk(st.Val, d+1); gl != nil {
+											return gl
+										}
+									}
+								}
+							}
+							return nil
+						}
+						if gl := walk(bo.Y, 0); gl != nil {
+							dividesBy[gl] = true
+						}
+					}
+				}
+			}
+		}
+		for gl := range tables {
+			leaves, ok := p.globalLeaves(gl)
+			if !ok || !dividesBy[gl] {
+				continue
+			}
+			// elements: k.f0 = suffix (string), k.f1 = size (int)
+			for k := int64(0); k < 16; k++ {
+				sv, ok1 := leaves[fmt.Sprintf("%d.f0.", k)]
+				zv, ok2 := leaves[fmt.Sprintf("%d.f1.", k)]
+				if !ok1 || !ok2 || sv.Kind() != constant.String {
+					continue
+				}
+				unit := constant.StringVal(sv)
+				size, okb := new(big.Int).SetString(zv.ExactString(), 10)
+				if !okb {
+					continue
+				}
+				n++
+				key := "unit:" + unit
+				mult, in := units2[unit]
+				switch {
+				case !in:
+					r.Bad("R20.2", key, p.Pos(gl.Pos()), "the formatter's unit table holds %q, which the parser's unitMap does not know: the text cannot be parsed back", unit)
+				case size.Cmp(mult) != 0:
+					r.Bad("R20.2", key, p.Pos(gl.Pos()), "the %q component is computed with divisor %s (unit table) but the parser multiplies %q by %s", unit, size, unit, mult)
+				default:
+					r.Ok("R20.2", key, p.Pos(gl.Pos()), "unit table: size %s = unitMap[%q]", size, unit)
+				}
+			}
+		}
+	}
 	if n < 7 {
 		r.Unk("R20.2", "unit:count", p.FuncPos(sdf), "only %d unit components recognised in the formatter", n)
 	}
